@@ -407,6 +407,28 @@ func cmdClaim(args []string) int {
 			}())
 		}
 	}
+	// obligations of open known findings stay claimed (the check reports them as KNOWN-FINDING, not as violations)
+	var kfs []knownFinding
+	if b, err := os.ReadFile(filepath.Join(verifDir, "known-findings.json")); err == nil {
+		json.Unmarshal(b, &kfs)
+	}
+	for _, k := range kfs {
+		if k.Property == *id && k.Status == "open" {
+			if _, ok := rr1.aggs[k.Obligation]; ok {
+				dup := false
+				for _, n := range names {
+					dup = dup || n == k.Obligation
+				}
+				if !dup {
+					names = append(names, k.Obligation)
+					fmt.Println("claimed as known finding:", k.Obligation)
+				}
+			} else {
+				fmt.Println("WARNING: known finding obligation is not generated:", k.Obligation)
+			}
+		}
+	}
+	sort.Strings(names)
 	os.MkdirAll(filepath.Join(verifDir, "obligations"), 0o755)
 	os.WriteFile(filepath.Join(verifDir, "obligations", *id+".expected"), []byte(strings.Join(names, "\n")+"\n"), 0o644)
 	fmt.Printf("claimed %d obligations for %s (%d not claimed)\n", len(names), *id, skipped)
